@@ -77,12 +77,11 @@ from typing import Any, Dict, List, Optional, Tuple
 N_CLASSES = 13
 SUBS = {0: [1, 2, 4, 8, 9], 2: [3], 4: [5, 6], 5: [7], 6: [7], 10: [11]}
 FIRST_DYNAMIC_CLASS = 20
-# descriptor-managed fields are only WRITTEN BY THE USER on instances of the class that declares them: for a subclass
-# instance (Mgr) krrood keys the inferred inverse by a different WrappedField (Mgr.member_of vs Emp.member_of) and records
-# the relation twice (and appends the item twice: mgr.member_of == [org, org]), on a fresh graph as well (not a matter of
-# history; F-C14-3). A subclass instance may be the TARGET of an assertion on the other side (org.members.add(mgr)): then
-# every relation of the Mgr is inferred through the subclass's view of the inherited field, once (EMP_TARGETS).
-EMP_LIKE = (2,)
+# descriptor-managed fields are WRITTEN BY THE USER on instances of the declaring class and of its subclasses (Mgr < Emp).
+# Until fix 0bfe625 krrood keyed the inferred inverse of a subclass instance by a different WrappedField (Mgr.member_of vs
+# Emp.member_of), recorded the relation twice and appended the item twice (mgr.member_of == [org, org]) on a fresh graph
+# (F-C14-3, repaired: the relation index is keyed by the descriptor's field in add_relation / relation_exists / remove_node).
+EMP_LIKE = (2, 3)
 EMP_TARGETS = (2, 3)
 ORG_LIKE = (1,)
 # index 9 is the model's "strong reference that is no relation" (Chair.emp, Holder.item, attach): no field of that name
